@@ -1325,6 +1325,29 @@ func (e *Engine) registerBytesBuffer() {
 		}
 		return SliceV{Data: data}
 	}
+	// WriteTo: one Write of everything that is buffered; the buffer is emptied by what the writer took (a writer that
+	// fails keeps its share in the buffer), and reset after a complete write
+	in["(*bytes.Buffer).WriteTo"] = func(r *Run, fr *frame, a []Value) Value {
+		r.raceAccess(writerKey{a[0].(Ptr)}, true, fr, nil)
+		b := r.bbuf(a[0])
+		if len(b.s.Segs) == 0 {
+			return Tuple{IntV{}, Iface{}}
+		}
+		w := a[1].(Iface)
+		m := r.eng.prog.LookupMethod(w.T, nil, "Write")
+		if m == nil {
+			panic(unsupported("Write method not found on %v", w.T))
+		}
+		res := r.callFunc(fr, m, []Value{w.V, BytesOf{S: b.s}}, nil).(Tuple)
+		if e, ok := res[1].(Iface); ok && e.T != nil {
+			if n, isInt := res[0].(IntV); !isInt || n.S != nil || n.C != 0 {
+				panic(unsupported("bytes.Buffer.WriteTo: partial write with an error"))
+			}
+			return Tuple{IntV{}, res[1]}
+		}
+		b.s = StrV{}
+		return Tuple{res[0], Iface{}}
+	}
 	in["(*bytes.Buffer).Len"] = func(r *Run, fr *frame, a []Value) Value { return r.strLen(r.bbuf(a[0]).s) }
 	in["(*bytes.Buffer).Reset"] = func(r *Run, fr *frame, a []Value) Value { r.bbuf(a[0]).s = StrV{}; return nil }
 	in["(*bytes.Buffer).Truncate"] = func(r *Run, fr *frame, a []Value) Value {
